@@ -156,6 +156,8 @@ class FnTrans:
             if ta == 'Z' and tb == 'Z' and type(e.op) in (ast.Add, ast.Sub, ast.Mult):
                 op = {ast.Add: '+', ast.Sub: '-', ast.Mult: '*'}[type(e.op)]
                 return '(%s %s %s)%%Z' % (a, op, b), 'Z', ga + gb
+            if ta == 'str' and tb == 'str' and isinstance(e.op, ast.Add):
+                return '(%s ++ %s)' % (a, b), 'str', ga + gb
             if ta == 'bool' and tb == 'bool' and isinstance(e.op, ast.BitOr):
                 return '(orb %s %s)' % (a, b), 'bool', ga + gb
             if ta == 'bool' and tb == 'bool' and isinstance(e.op, ast.BitAnd):
@@ -688,7 +690,7 @@ class FnTrans:
         via = spec.get('arg_map') or {n: n for n in declared}
         for n in declared:
             src = via[n].split('.')[0]
-            if src not in real:
+            if src not in real and src not in spec.get('externals', ('settings',)):
                 raise Unsupported('%s: parameter %s not found (has %r)' % (spec['name'], src, real))
         extra = [x for x in real if x not in {via[n].split('.')[0] for n in declared}]
         if extra:
@@ -786,6 +788,17 @@ UNITS = {
             dict(name='_fuzzy_match', args=[('string', S), ('like_name', S)], ret='bool'),
             dict(name='match', args=[('string', S), ('like_name', S), ('fuzzy', 'bool')], ret='bool',
                  py_defaults={'fuzzy': 'False'}),
+        ]),
+    # C04: what a completion inserts
+    'C04_complete': dict(
+        file='jedi/api/classes.py',
+        funcs=[
+            dict(name='Completion._complete', gname='gen_complete',
+                 args=[('add_bracket', 'bool'), ('type', S), ('public_name', S), ('like_len', 'Z'), ('like_name', 'bool')],
+                 arg_map={'add_bracket': 'settings.add_bracket_after_function', 'type': 'self.type',
+                          'public_name': 'self._name.get_public_name()', 'like_len': 'self._like_name_length',
+                          'like_name': 'like_name'},
+                 ret=S),
         ]),
     # C01: the position contract
     'C01_validate': dict(
